@@ -1347,6 +1347,7 @@ static void execute(const Plan &p) {
 		else if (prop == "C19") G.nontrivial = run.ends_reached > 0 || G.cnt.count("probe.connected");
 		else if (prop == "C20") G.nontrivial = run.timeouts_seen > 0;
 		else if (prop == "C22") G.nontrivial = G.cnt.count("probe.rate-limit-set") || G.cnt.count("probe.rate-group");
+		else if (prop == "C08") { bool f = false; for (auto &kv : G.cnt) if (kv.first.compare(0, 6, "fault.") == 0 || kv.first == "probe.error-event") f = true; G.nontrivial = mon::locks_enabled && f; }
 		else if (prop == "C10") G.nontrivial = run.released_early > 0 || G.cnt.count("probe.listener-freed-inside-callback") || G.cnt.count("probe.setcb-null");
 		else if (prop == "C44") G.nontrivial = run.lev_delivered > 0 || run.lev_expected_errors > 0 || run.accept_while_disabled > 0 || !run.clients.empty();
 		else G.nontrivial = run.bytes_crossed > 0;
@@ -1396,6 +1397,7 @@ static void generate(Plan &p, Rng &r) {
 	if (prop == "C18") { bump(OP_WATERMARK, 12); bump(OP_POLICY, 10); bump(OP_ENABLE, 7); }
 	if (prop == "C17") { bump(OP_WATERMARK, 6); bump(OP_FLUSH, 5); }
 	if (prop == "C19") { bump(OP_POLICY, 9); bump(OP_FREE, 4); bump(OP_SETCB_NULL, 3); bump(OP_PEER_SHUTDOWN, 4); bump(OP_PEER_RESET, 3); bump(OP_FLUSH, 5); bump(OP_SHUTDOWN_WR, 4); }
+	if (prop == "C08") { p.cfg["threadsafe"] = 1; p.cfg["unlock"] = r.chance(0.5); static const char *ks[] = {"f_read_short", "f_read_eagain", "f_read_eintr", "f_write_short", "f_write_eagain", "f_write_eintr"}; for (auto k : ks) if (r.chance(0.5)) p.cfg[k] = r.pick(std::vector<int64_t>{50, 200}); bump(OP_PEER_RESET, 4); bump(OP_PEER_SHUTDOWN, 3); bump(OP_FREE, 3); bump(OP_FLUSH, 4); if (r.chance(0.4)) { p.cfg["listener"] = 1; p.cfg["lev_threadsafe"] = 1; p.cfg["lev_close_on_free"] = r.coin(); ws.push_back({OP_LISTENER, 8}); ws.push_back({OP_CLIENT_BURST, 6}); } }
 	if (prop == "C10") { p.cfg["teardown_noloop"] = r.chance(0.5); bump(OP_POLICY, 9); bump(OP_FREE, 6); bump(OP_SETCB_NULL, 2); bump(OP_PEER_SHUTDOWN, 3); bump(OP_PEER_RESET, 2); bump(OP_FLUSH, 4); if (r.chance(0.3)) { p.cfg["listener"] = 1; p.cfg["lev_close_on_free"] = r.coin(); ws.push_back({OP_LISTENER, 8}); ws.push_back({OP_CLIENT_BURST, 6}); } }
 	if (prop == "C22") { ws.push_back({OP_RATELIMIT, 10}); ws.push_back({OP_GROUP, 8}); ws.push_back({OP_DECREMENT, 4}); ws.push_back({OP_MAXSINGLE, 4}); bump(OP_ADVANCE, 8); bump(OP_WRITE, 24); bump(OP_LOOP, 20); }
 	if (prop == "C44") { ws.push_back({OP_LISTENER, 14}); ws.push_back({OP_CLIENT_BURST, 12}); bump(OP_WRITE, 4); bump(OP_PEER_SEND, 2); }
